@@ -11,7 +11,8 @@ import time as _time
 
 from mc import harness, probes
 
-from sismic.model import Statechart, CompoundState, BasicState, Transition, Event, InternalEvent
+from sismic.model import (Statechart, CompoundState, BasicState, FinalState, Transition, Event,
+                          InternalEvent)
 from sismic.interpreter import Interpreter
 
 DEPTH = {'quick': 5, 'thorough': 7}
@@ -23,8 +24,10 @@ CALLS = []          # global delivery log of the recording callables: (callable 
 
 def chart(x):
     sc = Statechart(x, preamble='c = %d' % BASE[x])
-    sc.add_state(CompoundState('root', initial='s'), None)
+    sc.add_state(CompoundState('root', initial='s', on_exit="c = c + 1; send('bye', s=c, hop=9)"), None)
     sc.add_state(BasicState('s'), 'root')
+    sc.add_state(FinalState('f'), 'root')
+    sc.add_transition(Transition('s', 'f', event='quit', action="c = c + 1; send('m', s=c, hop=5)"))
     sc.add_transition(Transition(
         's', None, event='go',
         action="c = c + 1; send('m', s=c, hop=0); c = c + 1; send('d', s=c, hop=0, delay=1); "
@@ -70,6 +73,7 @@ class RefNode:
         self.internal = []      # (due, seq, name, s, hop)
         self.external = []
         self.c = BASE[x]
+        self.final = False
         self.targets = []       # ('i', node name) | ('f', callable id) | ('g', 0), in binding order
         self.g_armed = False
 
@@ -91,9 +95,9 @@ class Ref:
         q.sort(key=lambda e: (e[0], e[1]))
         self.queued[(node.x, internal, name, s)] += 1
 
-    def go(self, x):
+    def go(self, x, name='go'):
         self.serial += 1
-        self.put(self.nodes[x], False, self.nodes[x].now, 'go', self.serial, None)
+        self.put(self.nodes[x], False, self.nodes[x].now, name, self.serial, None)
         return self.serial
 
     def step(self, x):
@@ -111,7 +115,15 @@ class Ref:
         due, seq, name, s, hop = ev
         self.consumed[(x, was_internal, name, s)] += 1
         sends = []
-        if name == 'go':
+        if n.final:
+            pass                    # a terminated statechart consumes its events in transition-less steps
+        elif name == 'quit':
+            n.c += 1
+            sends.append(('internal', 'm', n.c, 5, 0))       # action of the transition to the final state
+            n.c += 1
+            sends.append(('internal', 'bye', n.c, 9, 0))     # exit code of the root, run by the terminating step
+            n.final = True
+        elif name == 'go':
             n.c += 1
             sends.append(('internal', 'm', n.c, 0, 0))
             n.c += 1
@@ -152,7 +164,7 @@ class Ref:
 
             def q(lst):
                 return tuple((max(due - n.now, 0), name, hop) for due, _, name, _, hop in lst)
-            out.append((q(n.internal), q(n.external), tuple(n.targets), n.g_armed, min(self.clock - n.now, 2)))
+            out.append((q(n.internal), q(n.external), tuple(n.targets), n.g_armed, n.final, min(self.clock - n.now, 2)))
         return tuple(out)
 
 
@@ -166,6 +178,7 @@ class System:
         ops = [('clock', 1)]
         for x in self.names:
             ops += [('go', x), ('step', x)]
+        ops += [('quit', 'A'), ('quit', 'B')]
         for x in self.names:
             for y in self.names:
                 ops.append(('bind', x, ('i', y)))
@@ -188,8 +201,8 @@ class System:
 
     def enabled(self, ref, op):
         k = op[0]
-        if k == 'go':
-            return len(ref.nodes[op[1]].external) < CAP
+        if k in ('go', 'quit'):
+            return len(ref.nodes[op[1]].external) < CAP and not (k == 'quit' and ref.nodes[op[1]].final)
         if k == 'bind':
             return len(ref.nodes[op[1]].targets) < (3 if op[1] == 'A' else 2) and op[2] not in ref.nodes[op[1]].targets
         if k == 'detach':
@@ -210,9 +223,9 @@ class System:
             ref.clock += op[1]
             for it in its.values():
                 it.clock.time += op[1]
-        elif k == 'go':
-            s = ref.go(op[1])
-            its[op[1]].queue(Event('go', s=s))
+        elif k in ('go', 'quit'):
+            s = ref.go(op[1], k)
+            its[op[1]].queue(Event(k, s=s))
         elif k == 'bind':
             x, (tk, tv) = op[1], op[2]
             if tk == 'g':
@@ -337,7 +350,7 @@ def run(tier, seed):
                                        {'check': 'C15', **v}))
     cov = {
         'programs': len(kinds), 'states': agg.states, 'transitions': agg.transitions,
-        'traces_validated_against_impl': agg.transitions, 'exhaustive': False, 'depth': depth,
+        'traces_validated_against_impl': agg.transitions, 'exhaustive': bool(agg.closed), 'depth': depth, 'closed_at_depth': agg.max_depth if agg.closed else None,
         'outcomes': dict(agg.outcomes),
         'samples': [{'system': k, 'ops': [list(map(_j, o)) for o in System(k).ops()]} for k in kinds],
         'rule': 'BFS to the stated depth over {queue go, execute_once, clock+1, bind to interpreter (incl. itself and '
